@@ -388,6 +388,7 @@ func (x *Explorer) beginPath(prefix []int64) {
 	x.randBudget, x.randCount = 0, 0
 	mapOrderReverse = mapOrderBase
 	gzReadChunk = 0
+	randCalls = 0
 	lastPanicWhere = ""
 	x.lemmaSqAbs = false
 	x.pathSteps = 0
